@@ -99,6 +99,10 @@ fn order_json(p: &[(usize, f64)]) -> Value {
 /// Executes the operations of one worker set on a tokenizer; `wbase` offsets the worker
 /// numbers in the log (used when several threads share one tokenizer).
 pub fn run_ops(tok: &Tokenizer, nw: usize, ops: &[Op], lattice: bool, wbase: usize, out: &mut Vec<Value>) {
+    run_ops_iso(tok, nw, ops, lattice, wbase, out, false)
+}
+
+pub fn run_ops_iso(tok: &Tokenizer, nw: usize, ops: &[Op], lattice: bool, wbase: usize, out: &mut Vec<Value>, iso: bool) {
     let mut workers: Vec<Worker> = (0..nw).map(|_| tok.new_worker()).collect();
     for op in ops {
         let r = catch_unwind(AssertUnwindSafe(|| {
@@ -151,7 +155,7 @@ pub fn run_ops(tok: &Tokenizer, nw: usize, ops: &[Op], lattice: bool, wbase: usi
                         ev.push(e);
                         pair.push(t);
                     }
-                    ev.push(json!({"ev": "respace", "w": w + wbase, "s1": s1, "s2": s2, "t1": pair[0], "t2": pair[1]}));
+                    ev.push(json!({"ev": "respace", "w": w + wbase, "s1": s1, "s2": s2, "t1": pair[0], "t2": pair[1], "iso": iso}));
                 }
             }
             ev
@@ -201,15 +205,15 @@ pub fn open_session(si: &SessionIn, out: &mut Vec<Value>) -> Option<Tokenizer> {
 
 pub fn run_session(si: &SessionIn, out: &mut Vec<Value>) {
     if let Some(tok) = open_session(si, out) {
-        run_ops(&tok, si.nw, &si.ops, si.lattice, 0, out);
+        run_ops_iso(&tok, si.nw, &si.ops, si.lattice, 0, out, si.d.iso);
     }
 }
 
 /// Random history for one session.
-pub fn gen_session(rng: &mut Rng, cfg: &GenCfg, nops: usize, max_len: usize, lattice: bool) -> SessionIn {
+pub fn gen_session(rng: &mut Rng, cfg: &GenCfg, nops: usize, max_len: usize, lattice: bool, respace_mode: bool) -> SessionIn {
     let d = gen_dict(rng, cfg);
     let has_space = d.space_cat() >= 0;
-    let isp = rng.chance(1, 2); // also asked when SPACE is undefined: must be rejected
+    let isp = respace_mode || rng.chance(1, 2); // also asked when SPACE is undefined: must be rejected
     let mgl = *rng.pick(&[0usize, 0, 1, 2, 3, 24]);
     let nw = 1 + rng.below(3);
     let mut ops = vec![];
@@ -219,7 +223,7 @@ pub fn gen_session(rng: &mut Rng, cfg: &GenCfg, nops: usize, max_len: usize, lat
     let mut tokd = vec![false; nw];
     while ops.len() < nops {
         let w = 1 + rng.below(nw);
-        match rng.below(20) {
+        match if respace_mode && rng.chance(3, 4) { 19 } else { rng.below(20) } {
             0..=6 => {
                 let s = if rng.chance(1, 2) { rng.pick(&pool).clone() } else { gen_sentence(rng, &d, max_len) };
                 if rng.chance(1, 3) {
@@ -289,23 +293,24 @@ pub fn record(a: &HashMap<String, String>) -> i32 {
     let threads: usize = a.get("threads").and_then(|s| s.parse().ok()).unwrap_or(0);
     let lattice = a.get("lattice").map(|s| s != "0").unwrap_or(true);
     let out = a.get("out").expect("--out");
+    let respace_mode = a.get("respace").map(|s| s == "1").unwrap_or(false);
     let inputs = a.get("inputs");
     let mut rng = Rng::new(seed);
-    let cfg = GenCfg { conn_kind: kind, ..Default::default() };
+    let cfg = GenCfg { conn_kind: kind, space_isolated: respace_mode, ..Default::default() };
     let mut evs = vec![];
     let mut ins = vec![];
     for _ in 0..n {
         let mut r = rng.fork();
         if threads <= 1 {
-            let si = gen_session(&mut r, &cfg, nops, max_len, lattice);
+            let si = gen_session(&mut r, &cfg, nops, max_len, lattice, respace_mode);
             run_session(&si, &mut evs);
             ins.push(si.to_json());
         } else {
             // k histories over ONE shared tokenizer, one thread each (C04)
-            let mut si = gen_session(&mut r, &cfg, nops, max_len, lattice);
+            let mut si = gen_session(&mut r, &cfg, nops, max_len, lattice, respace_mode);
             let mut hist = vec![(si.nw, si.ops.clone())];
             for _ in 1..threads {
-                let mut other = gen_session(&mut r.fork(), &cfg, nops, max_len, lattice);
+                let mut other = gen_session(&mut r.fork(), &cfg, nops, max_len, lattice, respace_mode);
                 // re-target the other history at this dictionary: keep only its shape, draw sentences anew
                 for op in other.ops.iter_mut() {
                     match op {
@@ -385,18 +390,61 @@ pub fn record(a: &HashMap<String, String>) -> i32 {
 }
 
 /// Executes session inputs (one JSON object per line) and writes the trace.
+/// With `--group k`, k consecutive inputs (which must share dictionary and options) are
+/// executed concurrently, one thread each, over ONE shared tokenizer and logged as one
+/// session (worker numbers offset per thread; per-thread order preserved).
 pub fn replay(a: &HashMap<String, String>) -> i32 {
     let inp = a.get("in").expect("--in");
     let out = a.get("out").expect("--out");
+    let group: usize = a.get("group").and_then(|s| s.parse().ok()).unwrap_or(1);
     let text = std::fs::read_to_string(inp).expect("read input");
     let mut evs = vec![];
+    let mut sis = vec![];
     for line in text.lines() {
         if line.trim().is_empty() {
             continue;
         }
         let v: Value = serde_json::from_str(line).expect("json");
-        let si = SessionIn::from_json(&v);
-        run_session(&si, &mut evs);
+        sis.push(SessionIn::from_json(&v));
+    }
+    if group <= 1 {
+        for si in &sis {
+            run_session(si, &mut evs);
+        }
+    } else {
+        for chunk in sis.chunks(group) {
+            let mut head_si = chunk[0].clone();
+            head_si.nw = chunk.iter().map(|c| c.nw).sum();
+            let mut head = vec![];
+            let tok = open_session(&head_si, &mut head);
+            evs.extend(head);
+            if let Some(tok) = tok {
+                let tok = &tok;
+                let mut logs: Vec<Vec<Value>> = vec![];
+                std::thread::scope(|sc| {
+                    let mut hs = vec![];
+                    let mut base = 0;
+                    for (i, c) in chunk.iter().enumerate() {
+                        let b = base;
+                        base += c.nw;
+                        hs.push(sc.spawn(move || {
+                            let mut log = vec![];
+                            for _ in 0..(i * 37 % 5) {
+                                std::thread::yield_now();
+                            }
+                            run_ops(tok, c.nw, &c.ops, c.lattice, b, &mut log);
+                            log
+                        }));
+                    }
+                    for h in hs {
+                        logs.push(h.join().unwrap());
+                    }
+                });
+                for l in logs {
+                    evs.extend(l);
+                }
+            }
+        }
     }
     write_lines(out, &evs);
     0
